@@ -184,6 +184,41 @@ pub fn function_part(rep: &mut Report, thorough: bool) -> (u64, std::collections
             rep.violation(v);
         }
     }
+    // names first written around the 14-bit pointer boundary (offset 0x4000), then referred to again:
+    // the response must still parse (a pointer can only reach offsets below 0x4000)
+    {
+        let mut pw = vec![];
+        for target in 0x3fe8usize..=0x4018 {
+            for follow in 0..5usize {
+                for limit in [65535usize, 32768, 17000] {
+                    pw.push((target, follow, limit));
+                }
+            }
+        }
+        let outs: Vec<Option<Violation>> = pw
+            .par_iter()
+            .map(|(target, follow, limit)| {
+                let p = crate::checks::c14::boundary_pkt(*target, *follow);
+                let case = json!({"engine":"c04","part":"function","family":"pointer-boundary","first_written_at":target,"follow":follow,"limit":limit});
+                match panics::catch(|| p.serialise_with_size(*limit)) {
+                    Err(pi) => Some(Violation::new("serialise-panic", format!("serialise_with_size({limit}) panicked for a name first written at {target:#x}: {} at {}", pi.msg, panics::short_loc(&pi.loc)), case).sig("loc", panics::short_loc(&pi.loc))),
+                    Ok(wire) => match rd::decode(&wire) {
+                        Err(e) => Some(Violation::new("malformed", format!("a {} octet response with a name first written at {target:#x} (follow-up {follow}, limit {limit}) is not well-formed: {e}", wire.len()), case)),
+                        Ok(_) => None,
+                    },
+                }
+            })
+            .collect();
+        n += outs.len() as u64;
+        classes.insert("pointer-boundary".into());
+        let mut first = true;
+        for v in outs.into_iter().flatten() {
+            if first || rep.violations.len() < 10 {
+                rep.violation(v);
+                first = false;
+            }
+        }
+    }
     // serialise() itself is the TCP path's encoder: a message of exactly 65535 / 65536 / 65537 octets
     for total in [65534usize, 65535, 65536, 65537, 70000] {
         let f = &fams[3];
@@ -468,7 +503,10 @@ pub fn run(tier: &str, replay: Option<Value>) -> ! {
             netrun::replay_one(&mut rep, &case, run_case);
         } else {
             let fams = families();
-            if let Some(f) = fams.iter().find(|f| Some(f.name) == case["family"].as_str()) {
+            if case["family"].as_str() == Some("pointer-boundary") {
+                function_part(&mut rep, false);
+                rep.violations.retain(|v| v.case["family"].as_str() == Some("pointer-boundary"));
+            } else if let Some(f) = fams.iter().find(|f| Some(f.name) == case["family"].as_str()) {
                 if let (_, Some(v)) = one(f, case["limit"].as_u64().unwrap_or(512) as usize, case["delta"].as_i64().unwrap_or(1)) {
                     rep.violation(v);
                 }
@@ -488,7 +526,7 @@ pub fn run(tier: &str, replay: Option<Value>) -> ! {
     }
     rep.cov("evaluations", n + ex);
     rep.cov("distinct_nontrivial", classes.len() as u64);
-    rep.cov("rule", "function level: serialise_with_size(limit) for every limit 512..=4096 (quick: 512..=1300 all, then step 13) (+ 8192,16383,16384,16385,32768,65535) x 6 message families x every size delta around the limit, decoded by the independent strict decoder. end to end: live DnsService, clients advertising {no EDNS, 0, 511, 512, 513, 1232, 4096, 65535 (+8 more in thorough)} over UDP and TCP, upstream answers sized so that the forwarder's full answer is limit-20..limit+20 (quick -6..+8) and 2K/4K/17K/60K/65K and 65532..65535 over TCP, 3 answer shapes (pad record in answer/authority/additional); distinct = (part, transport, outcome, fits/over) classes");
+    rep.cov("rule", "function level: serialise_with_size(limit) for every limit 512..=4096 (quick: 512..=1300 all, then step 13) (+ 8192,16383,16384,16385,32768,65535) x 6 message families x every size delta around the limit, decoded by the independent strict decoder; names first written at every offset 0x3fe8..0x4018 (around the 14-bit pointer boundary) and referred to again, 5 follow-up shapes x 3 limits. end to end: live DnsService, clients advertising {no EDNS, 0, 511, 512, 513, 1232, 4096, 65535 (+8 more in thorough)} over UDP and TCP, upstream answers sized so that the forwarder's full answer is limit-20..limit+20 (quick -6..+8) and 2K/4K/17K/60K/65K and 65532..65535 over TCP, 3 answer shapes (pad record in answer/authority/additional); distinct = (part, transport, outcome, fits/over) classes");
     rep.cov("exhaustive", true);
     rep.cov("parts", json!({"function": n, "end_to_end_exchanges": ex}));
     rep.cov("classes", json!(classes));
